@@ -478,12 +478,12 @@ type scriptResult struct {
 }
 
 // scripts that end with a request that never completes cost a watchdog period each (and leave goroutines
-// behind): after a handful of them the remaining scripts of the run are not executed any more
+// behind): after four of them (six for child-process scripts) the remaining scripts of the run are not executed any more
 var srvHangCount int32
 
 func runScript(cacheMB int, ops []string, gated bool) scriptResult {
-	if atomic.LoadInt32(&srvHangCount) >= 12 {
-		return scriptResult{hangs: 1, notes: []string{"not run: twelve earlier scripts of this run never completed"}, hist: map[string][]*gversion{}}
+	if atomic.LoadInt32(&srvHangCount) >= 4 {
+		return scriptResult{hangs: 1, notes: []string{"not run: four earlier scripts of this run never completed"}, hist: map[string][]*gversion{}}
 	}
 	res := runScriptInner(cacheMB, ops, gated)
 	if res.hangs > 0 {
@@ -622,7 +622,12 @@ func fmtResps(rs []*reqRec) string {
 }
 
 // run a script in a child process so that a crash of the code under test is an observation, not the end of the harness
+var srvChildHangs int32
+
 func runScriptChild(cacheMB int, ops []string) (string, bool) {
+	if atomic.LoadInt32(&srvChildHangs) >= 6 {
+		return "hangs=1 not-run:six-earlier-scripts-of-this-run-had-requests-that-never-completed", false
+	}
 	cmd := exec.Command(os.Args[0], "srvchild", strconv.Itoa(cacheMB), strings.Join(ops, " "))
 	var out, errb bytes.Buffer
 	cmd.Stdout, cmd.Stderr = &out, &errb
@@ -638,9 +643,14 @@ func runScriptChild(cacheMB int, ops []string) (string, bool) {
 			}
 			return "crash: " + strings.ReplaceAll(strings.TrimSpace(tail), "\n", " / "), false
 		}
-		return strings.TrimSpace(out.String()), true
+		res := strings.TrimSpace(out.String())
+		if strings.HasPrefix(res, "hangs=") && !strings.HasPrefix(res, "hangs=0") {
+			atomic.AddInt32(&srvChildHangs, 1) // requests that never complete: each costs a watchdog period
+		}
+		return res, true
 	case <-time.After(20 * time.Second):
 		cmd.Process.Kill()
+		atomic.AddInt32(&srvChildHangs, 1)
 		return "hang: process did not finish", false
 	}
 }
